@@ -758,7 +758,8 @@ theorem eff_mapEach_link {s s' : State K} (hwf : WF s)
 
 theorem eff_mkColl {s s' : State K} (hwf : WF s) {hs : List Nat} {cp : Bool} {dt : Option DType}
     (h : mkColl s hs cp dt = .ok s') :
-    Eff s s' (fun _ _ => False) (fun i => cp = false ∧ i ∈ hs) False ∧ ResultOK s s' := by
+    Eff s s' (fun _ _ => False) (fun i => cp = false ∧ hs.Nodup ∧ i ∈ hs) False ∧
+      ResultOK s s' := by
   unfold mkColl at h
   split at h
   · cases h
@@ -781,7 +782,7 @@ theorem eff_mkColl {s s' : State K} (hwf : WF s) {hs : List Nat} {cp : Bool} {dt
           Bool.not_eq_true, Decidable.not_not] at hcp
         exact hcp
       obtain ⟨e2, l2, lk, _⟩ := eff_linkColl hwf hcp'.2 h
-      refine ⟨e2.mono (fun _ _ _ f => f) (fun i _ hm => ⟨hcp'.1, hm⟩) id, by omega, ?_⟩
+      refine ⟨e2.mono (fun _ _ _ f => f) (fun i _ hm => ⟨hcp'.1, hcp'.2, hm⟩) id, by omega, ?_⟩
       intro oc' _ _
       have : lastId s' = s.objs.length := by unfold lastId; omega
       rw [this]; exact lk
@@ -1044,9 +1045,11 @@ def foot (G : List Grid) (s : State K) : Op K → Nat → Nat → Prop
   | .inplace _ a _, b, i => ∃ o : Obj, s.objs[a]? = some o ∧ o.validCell G b i
   | _, _, _ => False
 
-/-- objects existing before the operation that the operation may re-link (to a fresh buffer) -/
+/-- objects existing before the operation that the operation may re-link (to a fresh buffer):
+the fields handed to `FieldCollection(fields, copy_fields=False)` - unless some of them are
+identical, which forces a copy (collection.py:92-95) -/
 def moved : Op K → Nat → Prop
-  | .mkColl hs cp _, i => cp = false ∧ i ∈ hs
+  | .mkColl hs cp _, i => cp = false ∧ hs.Nodup ∧ i ∈ hs
   | _, _ => False
 
 /-- operations whose result may be a view of existing memory -/
